@@ -20,7 +20,7 @@
 (* events without geometry never reach a match.                            *)
 (***************************************************************************)
 EXTENDS Detection, TLC, Json
-CONSTANTS Universe,     \* "events" | "clips"
+CONSTANTS Universe,     \* "events" | "clips" | "extra" (regions with holes; tags over look-alike terms)
           MaxTotal,     \* "events": at most this many sound events in the varied clip
           MaxSide,      \* "events": at most this many per side
           Rich,         \* BOOLEAN: larger alphabets (a touching box, four score vectors)
@@ -53,7 +53,28 @@ Clip3 == [id |-> 3, anns |-> <<[g |-> <<I3>>, cls |-> 1]>>, preds |-> <<>>]
 Orders == {s \in SeqsOf({1, 2, 3}, 3) : 1 \in Range(s) /\ \A i, j \in DOMAIN s : i # j => s[i] # s[j]}
 ClipCases == {[kind |-> "lat", vocab |-> v, clips |-> <<Anchor, Clip2, Clip3>>, porder |-> p, aorder |-> a] :
                  p \in Orders, a \in Orders, v \in {2, 3}}
-Cases == IF Universe = "events" THEN EventCases ELSE ClipCases
+\* "holes": a region with an interior ring (as MultiPolygon and as Polygon), a box strictly inside the hole, a box inside
+\* it touching its border, a box across it
+Ring(a, b, x, y) == <<<<a, b>>, <<x, b>>, <<x, y>>, <<a, y>>, <<a, b>>>>
+HM == G("MultiPolygon", <<<<Ring(0, 0, 6, 6), Ring(1, 1, 5, 5)>>>>)
+HP == G("Polygon", <<Ring(0, 0, 6, 6), Ring(1, 1, 5, 5)>>)
+HoleGeoms == {<<HM>>, <<HP>>, <<G("BoundingBox", <<2, 2, 4, 4>>)>>, <<G("BoundingBox", <<1, 1, 3, 5>>)>>, <<G("BoundingBox", <<0, 2, 3, 4>>)>>}
+HoleCases ==
+    {[kind |-> "lat", vocab |-> 2, clips |-> <<Anchor, [id |-> 2, anns |-> x[1], preds |-> x[2]]>>,
+      porder |-> <<2, 1>>, aorder |-> <<1, 2>>] :
+        x \in {y \in SeqsOf([g : HoleGeoms, cls : {1}], 2) \X SeqsOf([g : HoleGeoms, sc : {<<3, 1>>}], 2) :
+                  Len(y[1]) + Len(y[2]) <= 3 /\ Len(y[1]) >= 1 /\ Len(y[2]) >= 1}}
+\* "terms": vocabularies, annotation tags and predicted tags over tags whose terms share a label or a name (Detection: tag table)
+VocOpts  == {<<1, 4>>, <<1, 2>>, <<2, 1>>, <<3, 1>>, <<4, 3>>, <<2, 3>>}
+ATagOpts == {<<>>, <<1>>, <<2>>, <<3>>, <<4>>, <<2, 1>>}
+PTagOpts == {<<<<1, 2>>, <<2, 1>>>>, <<<<2, 1>>, <<1, 2>>>>, <<<<1, 3>>>>, <<<<2, 3>>>>, <<<<3, 2>>, <<1, 1>>>>, <<<<4, 1>>, <<2, 2>>>>, <<<<3, 1>>, <<2, 1>>, <<1, 2>>>>}
+TermCases ==
+    {[kind |-> "lat", vocab |-> 2, voc |-> v,
+      clips |-> <<Anchor, [id |-> 2, anns |-> <<[g |-> <<I1>>, tags |-> a]>>, preds |-> <<[g |-> <<I2>>, pt |-> p]>>]>>,
+      porder |-> <<2, 1>>, aorder |-> <<1, 2>>] : v \in VocOpts, a \in ATagOpts, p \in PTagOpts}
+Cases == CASE Universe = "events" -> EventCases
+           [] Universe = "clips"  -> ClipCases
+           [] Universe = "extra"  -> HoleCases \cup TermCases
 
 (* ---- rationals ---- *)
 RMean(s) ==     \* mean of a sequence of rationals, <<0, 1>> for the empty sequence (_mean returns 0.0)
@@ -69,7 +90,7 @@ ZeroR(v)   == v[1] = 0
 Cur == ClipOf(c, c.porder[ci])
 P == Cur.preds
 A == Cur.anns
-V == c.vocab
+V == c                 \* the clause operators read vocabulary and tag tables from the case
 WithGeom(s) == LET RECURSIVE F(_)
                    F(i) == IF i > Len(s) THEN <<>> ELSE (IF HasGeom(s[i]) THEN <<i>> ELSE <<>>) \o F(i + 1)
                IN  F(1)
